@@ -182,8 +182,15 @@ def post(prop, tier, seed, env, target, outdir, vh):
                 d1, d3 = r1["counters"].get("digest_xor"), r3["counters"].get("digest_xor")
                 cov["reverse_order_runs_compared"] = r3["cases"]
                 cov["reverse_order_digest_equal"] = d1 == d3
-                if d1 != d3 or sorted(v["sig"] for v in r3["violations"]) != sorted(v["sig"] for v in r1["violations"]):
-                    viols.append({"sig": "C17|depends-on-what-ran-earlier-in-the-process", "detail": f"the same {n} cases give digest {d1} in index order and {d3} in reverse order after a prelude of oddly shaped muxers (separate processes)", "case": {"Enum": {"what": "forward vs reverse order comparison (shard 2 of 4)", "lo": 0, "hi": n}}, "count": 1})
+                # a third process: reverse order again, after the opposite prelude (complete A/V
+                # recordings first, then the oddly shaped ones) - what the first caller looked like
+                # must not matter either
+                c4 = os.path.join(outdir, "order_rev2.json")
+                rc4, e4, r4 = run_one(vh, prop, tier, seed, 2, 4, n, c4, {"VH_REVERSE": "1", "VH_PRELUDE": "2"})
+                d4 = r4["counters"].get("digest_xor") if (r4 and r4.get("cases") == r1.get("cases")) else None
+                cov["second_prelude_digest_equal"] = (d4 == d1) if d4 is not None else "inconclusive"
+                if d1 != d3 or (d4 is not None and d4 != d1) or sorted(v["sig"] for v in r3["violations"]) != sorted(v["sig"] for v in r1["violations"]):
+                    viols.append({"sig": "C17|depends-on-what-ran-earlier-in-the-process", "detail": f"the same {n} cases give digest {d1} in index order, {d3} in reverse order after a prelude of oddly shaped muxers and {d4} in reverse order after a prelude that starts with complete A/V recordings (separate processes)", "case": {"Enum": {"what": "forward vs reverse order comparison (shard 2 of 4)", "lo": 0, "hi": n}}, "count": 1})
             else:
                 cov["reverse_order_inconclusive"] = True
         else:
